@@ -125,6 +125,8 @@ def tables():
     # the translated part of the model: the header word expression of create_ccsds_packet, regenerated and proved equal to
     # Model/Header.v's header_word (Gen/FunOk_C13.v)
     import gen_fun
+    # ... and the whole function (the seven range checks, the six header bytes, the data appended) = Model/Header.v's create_packet
     return gen_fun.check("C13", [("expr", "space_packet_parser/packets.py", "create_ccsds_packet", "header", "gen_header_word",
-                                  ["version_number", "type", "secondary_header_flag", "apid", "sequence_flags", "sequence_count", "data"])],
+                                  ["version_number", "type", "secondary_header_flag", "apid", "sequence_flags", "sequence_count", "data"]),
+                                 ("full", "space_packet_parser/packets.py", "create_ccsds_packet", "gen_create_packet", ["RawPacketData"], {"RawPacketData"})],
                          "FunOk_C13")
